@@ -35,6 +35,11 @@ T = {
          "with time.py on exhaustive small and random histories.",
          "Lean 4 refinement proof by induction over operation histories + differential correspondence", "§7.6",
          "Trusted: Lean kernel, standard axioms, scripted stdlib clock. IEEE rounding not modelled (dyadic inputs, exact comparison)."),
+ "C07": ("delivered_eq / ts_paired / count_since / exclusive for every collect-update history and queue size; generic "
+         "lock-atomicity theorem (every interleaving of critical sections equals their atomic execution in lock-acquisition "
+         "order) instantiated for collect || update; line-granular preemption of the real DataCollector/DataUser with all "
+         "schedules of the small cases.", "Lean 4 proofs (history induction + interleaving induction) + line-preemption correspondence", "§7.7",
+         "Trusted: Lean kernel, standard axioms, line-granular scheduler (harness/linesched.py, sys.monitoring) and its cooperative fake RLock; single deque.append / attribute store assumed atomic; one producer, one consumer."),
  "C08": ("Shutdown-only-for-a-cause invariant of Pamiq.Proto, totality of the step statistics for every firing pattern "
          "of the logging scheduler, uptime-window arithmetic theorem over rationals; timed runs of real launch() over a "
          "configuration grid.",
@@ -44,6 +49,10 @@ T = {
          "protocol automaton monitor on real runs.",
          "Lean 4 proofs over the protocol model + trace refinement + protocol-automaton monitor", "§7.9",
          PROTO_NOTE + " Components are abstracted to callback kinds in the model; per-component exactly-once is checked on the implementation."),
+ "C20": ("no_step_after_done, reset_count, action_provenance, delivery (exactly once, in order), request_honoured for every "
+         "flag stream and request pattern; correspondence on all patterns of length <= 6 and random longer scripts.",
+         "Lean 4 proofs over all scripts + differential correspondence", "§7.20",
+         "Trusted: Lean kernel, standard axioms. Gymnasium itself is replaced by a minimal stand-in (harness/stubs/gymnasium); callbacks terminate and do not raise."),
  "C11": ("Invariants by induction over add/load histories for the four buffer classes (suffix property, one-slot "
          "replacement, p=1 always, p=0 never, subset, alignment, constructor totality); correspondence with scripted "
          "random draws.", "Lean 4 proofs by induction over operation sequences + differential correspondence", "§7.11",
